@@ -148,6 +148,7 @@ func c14(r *core.Run) {
 	c14Runtime(r)
 	c14Reserved(r, constructors)
 	c14Escape(r)
+	c14Adapter(r)
 }
 
 func c14Spec(r *core.Run, l litSite) {
@@ -676,4 +677,145 @@ func freeVarBinding(v ssa.Value) ssa.Value {
 		v = b
 	}
 	return v
+}
+
+// c14Adapter: "reserved requests are rejected" is enforced by the manager, on the mount list it is handed. The CLI
+// adapter that builds this list from the user's inputs must therefore hand on every requested path: a request may
+// be left out only if it is empty, cannot be made absolute, or is an exact duplicate of a path already listed.
+// Any other omission ("already visible through a parent") keeps a request for /proc or /dev from ever being judged.
+func c14Adapter(r *core.Run) {
+	p := r.P
+	sp := sandboxPath(p)
+	n := 0
+	for _, top := range p.FuncsIn("internal/cli") {
+		if top.Parent() != nil {
+			continue
+		}
+		// the mount list variable: what is stored into Config.Mounts
+		var list ssa.Value
+		core.InstrsOf(top, func(in ssa.Instruction) {
+			st, ok := in.(*ssa.Store)
+			if !ok {
+				return
+			}
+			fa, ok := st.Addr.(*ssa.FieldAddr)
+			if !ok || !core.IsNamed(fa.X.Type(), sp, "Config") || core.FieldName(fa.X.Type(), fa.Field) != "Mounts" {
+				return
+			}
+			if u, isLoad := st.Val.(*ssa.UnOp); isLoad && u.Op == token.MUL {
+				list = u.X
+			}
+		})
+		if list == nil {
+			continue
+		}
+		for _, g := range core.Nest(top) {
+			core.InstrsOf(g, func(in ssa.Instruction) {
+				st, ok := in.(*ssa.Store)
+				if !ok {
+					return
+				}
+				target := st.Addr
+				if fv, isFV := target.(*ssa.FreeVar); isFV {
+					target = core.BindingOf(fv)
+				}
+				if target != list {
+					return
+				}
+				app, isApp := isBuiltinCall(st.Val, "append")
+				if !isApp {
+					return
+				}
+				n++
+				elems, _ := varargElems(app.Call.Args[1])
+				isElem := func(v ssa.Value) bool {
+					for _, e := range elems {
+						if core.Unwrap(e) == core.Unwrap(v) || core.Canon(e) == core.Canon(v) {
+							return true
+						}
+					}
+					return false
+				}
+				excuse := func(cond ssa.Value) (bool, bool) {
+					// the path could not be made absolute
+					if x, nonNilOnTrue, ok := core.NilCompare(cond); ok && x.Type().String() == "error" {
+						return true, nonNilOnTrue
+					}
+					op, x, y, neg, ok := core.Compare(cond)
+					if ok && !neg && (op == token.EQL || op == token.NEQ) {
+						// the request is empty
+						for _, pair := range [][2]ssa.Value{{x, y}, {y, x}} {
+							if sv, isC := core.ConstString(pair[1]); isC && sv == "" {
+								if _, isP := core.Unwrap(pair[0]).(*ssa.Parameter); isP || isElem(pair[0]) {
+									return true, op == token.EQL
+								}
+							}
+						}
+						// an exact duplicate of a listed path
+						if (isElem(x) || isElem(y)) && x.Type().Underlying().String() == "string" {
+							if _, isC := core.ConstString(x); !isC {
+								if _, isC2 := core.ConstString(y); !isC2 {
+									return true, op == token.EQL
+								}
+							}
+						}
+					}
+					// ... as recorded in a set keyed by the path
+					base, negB := core.StripNot(cond)
+					if lk, isLk := core.Unwrap(base).(*ssa.Lookup); isLk && isElem(lk.Index) {
+						return true, !negB
+					}
+					if ex, isEx := base.(*ssa.Extract); isEx {
+						if lk, isLk := ex.Tuple.(*ssa.Lookup); isLk && isElem(lk.Index) && ex.Index == 1 {
+							return true, !negB
+						}
+					}
+					return false, false
+				}
+				cut, _ := core.GuardEdges(g, excuse)
+				for _, pb := range st.Block().Preds {
+					for i, sb := range pb.Succs {
+						if sb == st.Block() {
+							cut[core.Edge{From: pb, Idx: i}] = true
+						}
+					}
+				}
+				var wit []int
+				if h := core.LoopHeaderOf(st.Block()); h != nil && g == top {
+					// requests handled inline in a loop: one iteration, from the body's entry back to the header
+					body := loopBody(h)
+					for _, s0 := range h.Succs {
+						if body[s0] && s0 != h {
+							if pth := core.PathAvoiding(s0, h, cut); pth != nil {
+								wit = pth
+							}
+						}
+					}
+				} else {
+					for _, ret := range core.Returns(g) {
+						if ret.Block() == st.Block() {
+							continue
+						}
+						if pth := core.PathAvoiding(g.Blocks[0], ret.Block(), cut); pth != nil {
+							wit = pth
+							break
+						}
+					}
+					if len(core.Returns(g)) == 0 {
+						for _, b := range g.Blocks {
+							if _, isRet := b.Instrs[len(b.Instrs)-1].(*ssa.Return); isRet && b != st.Block() {
+								if pth := core.PathAvoiding(g.Blocks[0], b, cut); pth != nil {
+									wit = pth
+								}
+							}
+						}
+					}
+				}
+				r.Check(wit == nil, "C14.ADAPTER", core.FuncName(g)+"#every-request-reaches-the-manager", st.Pos(),
+					"a requested path is left out of the mount list only if it is empty, cannot be made absolute or is an exact duplicate",
+					"a requested path can be left out of the mount list handed to the sandbox manager for another reason (path "+core.FmtPath(wit)+"): the manager's reserved-path check never sees it, so a request for /proc, /dev or /tmp below an already listed directory is accepted instead of rejected")
+			})
+		}
+	}
+	r.Floor("C14.ADAPTER", "appends to the mount list handed to the sandbox manager", n, 1)
 }
